@@ -2,9 +2,10 @@
 C15 — property theorems: grammars stay well-formed under edits and validate exactly their definition.
 Only the property theorems (and the few definitions needed to state them) live here; helper lemmas
 are in `Lemmas/C15.lean` (dict/set bookkeeping), `Lemmas/C15Inv.lean` (every operation preserves the
-invariant) and `Lemmas/C15World.lean` (lifting to the world of grammar slots, frame lemma).
+invariant), `Lemmas/C15World.lean` (lifting to the world of grammar slots, frame lemma) and
+`Lemmas/C15Dict.lean` (the association lists are dictionaries).
 -/
-import GemseoVerif.Lemmas.C15World
+import GemseoVerif.Lemmas.C15Dict
 
 namespace GV.C15
 
@@ -30,6 +31,13 @@ theorem wf_step (w : World) (op : Op) (hw : w.Inv) : ∀ i g, (step w op).1.get 
 theorem wf_invariant (g : Grammar) (h : Reachable g) :
     (∀ r ∈ g.required, r ∈ g.keys) ∧ (∀ d ∈ akeys g.defaults, d ∈ g.keys) :=
   (reachable_Inv g h).1
+
+/-- The association lists of the model are dictionaries / sets after any history: element names,
+    names with a default and required names are pairwise distinct. -/
+theorem dict_invariant (g : Grammar) (h : Reachable g) :
+    (akeys g.elems).Nodup ∧ (akeys g.defaults).Nodup ∧ g.required.Nodup := by
+  obtain ⟨ops, i, hg⟩ := h
+  exact run_Dict emptyWorld ops emptyDict emptyInv i g hg
 
 /-! ### The lazily built schema and validator are never stale -/
 
@@ -196,6 +204,52 @@ theorem pickle_roundtrip_same_definition (g : Grammar) (h : Reachable g) :
       rw [hp, he]
       exact hi.1.2 p.1 (List.mem_map.mpr ⟨p, hp', rfl⟩)
 
+/-- After any history the unpickled grammar has *the same public definition* as the pickled one
+    (same elements in the same order, same required names, same defaults, same namespace maps). -/
+theorem pickle_roundtrip_same_pub (g : Grammar) (h : Reachable g) : (pickleOf g).1.pub = g.pub := by
+  have hi := reachable_Inv g h
+  have hd := dict_invariant g h
+  have hp := pickle_roundtrip_same_definition g h
+  have hdef : (pickleOf g).1.defaults = g.defaults := by
+    unfold pickleOf
+    cases hk : g.kind with
+    | simple => rfl
+    | json =>
+      simp only
+      have h1 := Inv_fillSchema g hi
+      have hp' := schemaView_props_of_cacheOK g.fillSchema h1.2
+      have he : g.fillSchema.elems = g.elems := congrArg Pub.elems (fillSchema_pub g)
+      apply setDefaultsChecked_eq _ _ rfl hd.2.1
+      intro p hp''
+      show p.1 ∈ akeys g.fillSchema.schemaView.props
+      rw [hp', he]
+      exact hi.1.2 p.1 (List.mem_map.mpr ⟨p, hp'', rfl⟩)
+  unfold Grammar.pub
+  rw [hp.1, hp.2.1, hp.2.2.1, hp.2.2.2.1, hp.2.2.2.2.1, hdef]
+
+/-- After any history a copy has the same public definition as the original. -/
+theorem copy_same_pub (g : Grammar) (h : Reachable g) : (copyOf g).pub = g.pub := by
+  have hi := reachable_Inv g h
+  have hd := dict_invariant g h
+  have hc := copy_same_definition g hi.1
+  have hreq : (copyOf g).required = g.required := by
+    unfold copyOf
+    show (reqAddAll _ g.required).required = g.required
+    apply reqAddAll_eq _ _ _ hd.2.2
+    · intro n hn
+      have := hi.1.1 n hn
+      cases hk : g.kind <;> simpa [Grammar.keys, hk] using this
+    · cases hk : g.kind <;> rfl
+  have hdef : (copyOf g).defaults = g.defaults := by
+    unfold copyOf
+    apply setDefaultsChecked_eq _ _ _ hd.2.1
+    · intro p hp
+      have := hi.1.2 p.1 (List.mem_map.mpr ⟨p, hp, rfl⟩)
+      cases hk : g.kind <;> simpa [Grammar.keys, reqAddAll, hk] using this
+    · cases hk : g.kind <;> rfl
+  unfold Grammar.pub
+  rw [hc.1, hc.2.1, hc.2.2.2.1, hc.2.2.2.2, hreq, hdef]
+
 /-! ### SimpleGrammar and JSONGrammar agree on the definitions both can express -/
 
 /-- Values on which `isinstance(value, type)` and the JSON type the same declaration maps to
@@ -301,6 +355,10 @@ example : ((run emptyWorld demoOps).get 1).map (·.keys) = some ["a", "z", "n:y"
     ((run emptyWorld demoOps).get 2).map Grammar.pub = ((run emptyWorld demoOps).get 1).map Grammar.pub := by
   decide
 example : ∀ op ∈ [Op.del 1 "y", Op.reqdisc 1 "x", Op.clear 1], 0 ∉ op.targets := by decide
+/-- `copy_same_pub` / `pickle_roundtrip_same_pub` / `dict_invariant` on the non-trivial reachable grammar
+    (3 elements, 2 required names, a default, validator built). -/
+example : (copyOf demoG).pub = demoG.pub ∧ (pickleOf demoG).1.pub = demoG.pub ∧
+    (pickleOf demoG).1.validC = none ∧ (copyOf demoG).validC = demoG.validC := by decide
 /-- `simple_json_agree`: a simple and a JSON grammar with the same declarations exist and compatible
     data exist (and incompatible ones are really excluded: `True` is an `int` but not an `integer`). -/
 def demoPair : World := run emptyWorld
